@@ -2,5 +2,5 @@
    N.succ is listed so that the shared ocaml/common/conv.ml (positive / N helpers) links. *)
 Require Import ExtrOcamlBasic.
 From Coq Require Import NArith.
-From ACH Require Import TotalOps.
-Extraction "model.ml" run_ops run_ops_result run_op panics N.succ.
+From ACH Require Import TotalOps TotalJson.
+Extraction "model.ml" run_ops run_ops_result run_op panics file_class wf_file wf_file_strict file_from_json serve N.succ.
